@@ -475,6 +475,8 @@ def box(v):
         return named_const(v.name)
     if hasattr(v, 'as_val'):
         return v.as_val()
+    if type(v).__name__ in ('Model', 'SFunc', 'ClassRef', 'ModuleRef'):
+        return named_const('callable:' + v.name)
     if type(v).__name__ == 'FuncRef':
         return named_const('func@%s:%s' % (v.qualname, getattr(
             v.node, 'lineno', 0)))
